@@ -15,9 +15,11 @@ import (
 	"github.com/nyaruka/goflow/flows/engine"
 )
 
-// The closed world of C15: one asset set (a field of every type, a group, a flow, a topic) whose real
-// SessionAssets object is the resolver of every query and the asset source of every contact, so
-// that queries are validated and contacts are typed by the same definitions as in the engine.
+// The closed world of C15: one asset set (a field of every type, text fields whose key is also the
+// name of a contact attribute - name, language, tickets - or a URN scheme - twitter -, a plain group,
+// query based groups, a flow, a topic) whose real SessionAssets object is the resolver of every
+// query and the asset source of every contact, so that queries are validated and contacts are typed
+// by the same definitions as in the engine.
 const assetsJSON = `{
  "channels": [
   {"uuid":"57f1078f-88aa-46f4-a59a-948a5739c03d","name":"Tel","address":"+12065550000","schemes":["tel"],"roles":["send","receive"],"country":"US"}
@@ -28,10 +30,20 @@ const assetsJSON = `{
   {"uuid":"6c86d5ab-3fd9-4a5c-a5b6-48168b016747","key":"joined","name":"Joined","type":"datetime"},
   {"uuid":"c88d2640-d124-438a-b666-5ec53a353dcd","key":"state","name":"State","type":"state"},
   {"uuid":"3bfc3908-a402-48ea-841c-b73b5ef3a254","key":"district","name":"District","type":"district"},
-  {"uuid":"e9e738ce-617d-4c61-bfce-3d3b55cfe3dd","key":"ward","name":"Ward","type":"ward"}
+  {"uuid":"e9e738ce-617d-4c61-bfce-3d3b55cfe3dd","key":"ward","name":"Ward","type":"ward"},
+  {"uuid":"0a1b2c3d-0001-4e5f-8a9b-000000000001","key":"name","name":"Field called name","type":"text"},
+  {"uuid":"0a1b2c3d-0002-4e5f-8a9b-000000000002","key":"language","name":"Field called language","type":"text"},
+  {"uuid":"0a1b2c3d-0003-4e5f-8a9b-000000000003","key":"twitter","name":"Field called twitter","type":"text"},
+  {"uuid":"0a1b2c3d-0004-4e5f-8a9b-000000000004","key":"tickets","name":"Field called tickets","type":"text"}
  ],
  "groups": [
-  {"uuid":"2aad21f6-30b7-42c5-bd7f-1b720c154817","name":"Testers"}
+  {"uuid":"2aad21f6-30b7-42c5-bd7f-1b720c154817","name":"Testers"},
+  {"uuid":"0a1b2c3d-1001-4e5f-8a9b-000000000001","name":"Has age","query":"age > 0"},
+  {"uuid":"0a1b2c3d-1002-4e5f-8a9b-000000000002","name":"Joined","query":"joined <= 2025-06-15"},
+  {"uuid":"0a1b2c3d-1003-4e5f-8a9b-000000000003","name":"Located","query":"state = \"Kigali City\" AND district != \"\" AND ward != Remera"},
+  {"uuid":"0a1b2c3d-1004-4e5f-8a9b-000000000004","name":"Bob","query":"name = bob OR fields.name = bob"},
+  {"uuid":"0a1b2c3d-1005-4e5f-8a9b-000000000005","name":"No language","query":"language = \"\" AND fields.language = \"\""},
+  {"uuid":"0a1b2c3d-1006-4e5f-8a9b-000000000006","name":"Tweets","query":"twitter != \"\" OR fields.twitter != \"\""}
  ],
  "topics": [
   {"uuid":"472a7a73-96cb-4736-b567-056d987cc5b4","name":"General"}
@@ -123,6 +135,41 @@ type Profile struct {
 	LastSeen  string   `json:"last_seen_on,omitempty"`
 	Ticket    bool     `json:"ticket,omitempty"`
 	InGroup   bool     `json:"in_group,omitempty"`
+	// values of the text fields whose key is also an attribute name or a URN scheme
+	FName    string `json:"fields_name,omitempty"`
+	FLang    string `json:"fields_language,omitempty"`
+	FTwitter string `json:"fields_twitter,omitempty"`
+	FTickets string `json:"fields_tickets,omitempty"`
+	// Odd: key of a number, datetime or location field -> a stored value that has its text but not the
+	// part of the field's own type. It takes the place of the regular value of that field.
+	Odd map[string]Odd `json:"odd,omitempty"`
+}
+
+// Odd is a stored field value without the typed part of its field's type: the text alone (what the
+// real FieldValues.Parse makes of "old" for a number field, of "a while ago" for a datetime field, of
+// any name when no location resolves, and what a stored text value is after its field's type was
+// changed), optionally with the typed part of another type (Parse fills in every type the text reads as).
+type Odd struct {
+	Text     string `json:"text"`
+	Number   string `json:"number,omitempty"`
+	Datetime string `json:"datetime,omitempty"`
+	State    string `json:"state,omitempty"`
+}
+
+// typedFieldKeys are the fields of the world whose query value is a typed part of the stored value.
+var typedFieldKeys = []string{"age", "joined", "state", "district", "ward"}
+
+func (p Profile) odd(key string) bool { _, is := p.Odd[key]; return is }
+
+// withOdd returns a copy of the profile (own map) with an odd stored value for the field.
+func (p Profile) withOdd(key string, o Odd) Profile {
+	m := map[string]Odd{}
+	for k, v := range p.Odd {
+		m[k] = v
+	}
+	m[key] = o
+	p.Odd = m
+	return p
 }
 
 const defaultCreatedOn = "2020-01-01T12:00:00Z"
@@ -176,6 +223,28 @@ func (p Profile) contactJSON() []byte {
 	}
 	if p.Ward != "" {
 		f["ward"] = J{"text": lastSeg(p.Ward), "ward": p.Ward}
+	}
+	for key, text := range map[string]string{"name": p.FName, "language": p.FLang, "twitter": p.FTwitter, "tickets": p.FTickets} {
+		if text != "" {
+			f[key] = J{"text": text}
+		}
+	}
+	for key, o := range p.Odd {
+		ownPart := map[string]string{"age": o.Number, "joined": o.Datetime, "state": o.State, "district": "", "ward": ""}
+		if own, typed := ownPart[key]; !typed || own != "" || o.Text == "" {
+			panic("c15: an odd value is a non-empty text without the typed part of its (typed) field: " + key)
+		}
+		v := J{"text": o.Text}
+		if o.Number != "" {
+			v["number"] = json.Number(o.Number)
+		}
+		if o.Datetime != "" {
+			v["datetime"] = o.Datetime
+		}
+		if o.State != "" {
+			v["state"] = o.State
+		}
+		f[key] = v
 	}
 	if len(f) > 0 {
 		c["fields"] = f
@@ -248,7 +317,20 @@ func (p Profile) present(pt contactql.PropertyType, key string) (known, present 
 		}
 		return true, false
 	case contactql.PropertyTypeField:
+		// a number, datetime or location field is seen by queries through the part of its own type
+		// (Contact.QueryProperty supplies typed values): a stored value without that part is no value
+		if p.odd(key) {
+			return true, false
+		}
 		switch key {
+		case "name":
+			return true, p.FName != ""
+		case "language":
+			return true, p.FLang != ""
+		case "twitter":
+			return true, p.FTwitter != ""
+		case "tickets":
+			return true, p.FTickets != ""
 		case "gender":
 			return true, p.Gender != ""
 		case "age":
